@@ -1,0 +1,71 @@
+//go:build verif
+
+package client
+
+import "time"
+
+// Verification instrumentation, compiled only with -tags verif.
+//
+// VerifHook, when non-nil, is called at the linearization points of the
+// connection, dispatch and handler-set code with an event name, the Conn
+// (nil where none is in scope) and event-specific arguments. It must be set
+// before any connection is started. The function may block: a blocked hook
+// holds the calling goroutine at that point.
+var VerifHook func(ev string, conn *Conn, args ...interface{})
+
+func vhook(ev string, conn *Conn, args ...interface{}) {
+	if h := VerifHook; h != nil {
+		h(ev, conn, args...)
+	}
+}
+
+// VerifSetName names the handler set hs of conn: "int", "fg", "bg" or "".
+func VerifSetName(conn *Conn, hs interface{}) string {
+	switch hs {
+	case conn.intHandlers:
+		return "int"
+	case conn.fgHandlers:
+		return "fg"
+	case conn.bgHandlers:
+		return "bg"
+	}
+	return ""
+}
+
+// VerifHandleInternal registers h in the internal handler set.
+func VerifHandleInternal(conn *Conn, name string, h Handler) Remover {
+	return conn.handle(name, h)
+}
+
+// VerifQueueCaps returns the capacities of the in and out queues.
+func VerifQueueCaps(conn *Conn) (in, out int) {
+	conn.mu.RLock()
+	defer conn.mu.RUnlock()
+	return cap(conn.in), cap(conn.out)
+}
+
+// VerifSplitMessage exposes splitMessage.
+func VerifSplitMessage(msg string, splitLen int) []string {
+	return splitMessage(msg, splitLen)
+}
+
+// VerifSplitArgs exposes splitArgs.
+func VerifSplitArgs(args []string, maxLen int) []string {
+	return splitArgs(args, maxLen)
+}
+
+// VerifRateLimit exposes rateLimit. Only for clients without a running
+// connection (rateLimit is otherwise owned by the send goroutine).
+func VerifRateLimit(conn *Conn, chars int) time.Duration {
+	return conn.rateLimit(chars)
+}
+
+// VerifFloodState returns the flood-control counters.
+func VerifFloodState(conn *Conn) (badness time.Duration, lastsent time.Time) {
+	return conn.badness, conn.lastsent
+}
+
+// VerifSetFloodState sets the flood-control counters.
+func VerifSetFloodState(conn *Conn, badness time.Duration, lastsent time.Time) {
+	conn.badness, conn.lastsent = badness, lastsent
+}
